@@ -20,7 +20,7 @@ type c05Case struct {
 	Env    string `json:"env"`           // UPDATE_SNAPS of this process
 	Opt    string `json:"opt,omitempty"` // Update option: "" | true | false
 	API    string `json:"api,omitempty"`
-	Slot   string `json:"slot,omitempty"`  // missing | equal | different
+	Slot   string `json:"slot,omitempty"`  // missing | equal | different | relaid
 	Sort   bool   `json:"sort,omitempty"`  // Clean: CleanOpts.Sort
 	Stale  string `json:"stale,omitempty"` // Clean: none | entry | file | both
 	Sorted bool   `json:"sorted,omitempty"`
@@ -37,6 +37,10 @@ func c05Gen(c *vfCtx, emit func(c05Case)) {
 	for _, ci := range []bool{false, true} {
 		for _, opt := range []string{"", "true", "false"} {
 			for _, api := range []string{"snap", "json", "yaml", "ssnap", "sjson"} {
+				if api == "json" || api == "sjson" {
+					// state "different" reached by re-laying-out the stored text (same document, other whitespace / member order): still a different text
+					emit(c05Case{Kind: "call", CI: ci, Env: env, Opt: opt, API: api, Slot: "relaid"})
+				}
 				for _, slot := range []string{"missing", "equal", "different"} {
 					emit(c05Case{Kind: "call", CI: ci, Env: env, Opt: opt, API: api, Slot: slot})
 					if (api == "snap" || api == "ssnap") && slot != "missing" {
@@ -100,7 +104,7 @@ func c05Run(c *vfCtx, cs c05Case) {
 	}
 	if cs.Slot != "missing" {
 		v := old
-		if cs.Slot == "equal" {
+		if cs.Slot == "equal" || cs.Slot == "relaid" {
 			v = neu
 		}
 		t := &vfT{name: "TestA"}
@@ -109,6 +113,22 @@ func c05Run(c *vfCtx, cs c05Case) {
 		if len(t.errs) > 0 {
 			c.harnessErr("C05 setup failed: %v", t.errs)
 			return
+		}
+	}
+	if cs.Slot == "relaid" {
+		relaid := "{\"a\":   2}"
+		if cs.API == "sjson" {
+			if err := os.WriteFile(filepath.Join(dir, "TestA_1.snap.json"), []byte(relaid), 0o644); err != nil {
+				panic(err)
+			}
+		} else {
+			es, err := vfParse(vfSnapDir(dir)["f.snap"].Data)
+			if err != nil || len(es) == 0 {
+				c.harnessErr("C05 relaid setup: %v", err)
+				return
+			}
+			es[len(es)-1].Body = relaid
+			os.WriteFile(filepath.Join(dir, "f.snap"), vfRender(es), 0o644)
 		}
 	}
 	vfPlantSentinel(dir)
@@ -133,7 +153,7 @@ func c05Run(c *vfCtx, cs c05Case) {
 		}
 	case "equal":
 		want = "pass"
-	case "different":
+	case "different", "relaid":
 		want = "failed"
 		if m.canUpdate(cs.Opt) {
 			want, mayWrite = "updated", true
